@@ -1,2 +1,2 @@
-import NipyVerif.Model.C03H
-def main : IO Unit := NipyVerif.driverLoop NipyVerif.C03.runH
+import NipyVerif.Model.C03F
+def main : IO Unit := NipyVerif.driverLoop NipyVerif.C03.runF
